@@ -64,7 +64,89 @@ VARIANT = {0: ("NullOp", []), 1: ("UnOp", ["src"]), 2: ("BinOp", ["lhs", "rhs"])
 
 
 def harness_modules():
-    return [dict(crate="mech-core", file="src/program/compiler/constants.rs", mod="verif_c06", gen="C06/kani_constants.rs")]
+    return [dict(crate="mech-core", file="src/program/compiler/constants.rs", mod="verif_c06", gen="C06/kani_constants.rs"),
+            dict(crate="mech-core", file="src/program/compiler/constants.rs", mod="verif_c06p", gen="C06/kani_payload.rs")]
+
+
+PAYLOAD_KINDS = ["u8", "u16", "u32", "u64", "u128", "i8", "i16", "i32", "i64", "i128", "f32", "f64", "bool", "usize", "String"]
+
+
+def payload_fragments(plan):
+    """(F) the payload-building statements of every `impl CompileConst for T` (scalar kinds, String):
+    everything before the final `ctx.compile_const(&payload, ValueKind::K)`, verbatim, as a function of the value."""
+    text = read_repo("src/core/src/program/compiler/constants.rs")
+    frags, harn, names = [], [], []
+    tmpl = None
+    try:
+        mt = extract_macro(text, "impl_compile_const")
+        _, tmpl = macro_arm_body(mt, 0)
+    except AnchorLost:
+        tmpl = None
+    for T in PAYLOAD_KINDS:
+        m = vlib.find_code(text, r"impl CompileConst for %s\s*\{" % re.escape(T))
+        body = None
+        if m:
+            end = match_brace(text, m.end() - 1)
+            try:
+                sig, body = extract_fn(text[m.start():end], "compile_const")
+            except AnchorLost:
+                body = None
+        elif tmpl is not None and re.search(r'impl_compile_const!\(\s*"%s"\s*,\s*%s\s*\)' % (T, T), text):
+            t2 = tmpl.replace("[<write_ $t>]", "write_" + T).replace("[<$t:upper>]", T.upper()).replace("$t", T)
+            mm = vlib.find_code(t2, r"impl CompileConst for %s\s*\{" % T)
+            if mm:
+                end = match_brace(t2, mm.end() - 1)
+                try:
+                    sig, body = extract_fn(t2[mm.start():end], "compile_const")
+                except AnchorLost:
+                    body = None
+        if body is None:
+            plan.anchor_errors.append(("C06.payload.%s" % T, "impl CompileConst for %s not found" % T))
+            continue
+        stm = vlib.split_statements(body)
+        if not stm or not re.match(r"ctx\.compile_const\(&payload,\s*ValueKind::\w+\)$", stm[-1].strip()):
+            plan.anchor_errors.append(("C06.payload.%s" % T, "compile_const no longer ends in ctx.compile_const(&payload, ValueKind::K)"))
+            continue
+        pre = "\n  ".join(stm[:-1])
+        pre = re.sub(r"\bself\b", "self_", pre)
+        tn = T.lower()
+        frags.append("fn vkfrag_payload_%s(self_: &%s) -> MResult<Vec<u8>> {\n  %s\n  Ok(payload)\n}\n" % (tn, T, pre))
+        h = "vkc06_payload__%s__agrees_with_element_codec" % tn
+        names.append(h)
+        if T == "String":
+            mk = """  let raw = [vk::any::<u8>(), vk::any::<u8>(), vk::any::<u8>()];
+  let n: usize = vk::any(); vk::assume(n <= 3);
+  let parsed = std::str::from_utf8(&raw[..n]);
+  vk::assume(parsed.is_ok());
+  let x: String = parsed.unwrap().to_string();"""
+            same = "y == x"
+        else:
+            mk = "  let x: %s = vk::any();" % T
+            same = "vk::same(&y, &x)"
+        harn.append("""#[cfg_attr(kani, kani::proof)]
+#[cfg_attr(kani, kani::unwind(24))]
+#[cfg_attr(kani, kani::stub(alloc::fmt::format, fmt_stub))]
+pub(crate) fn %(h)s() {
+%(mk)s
+  vk::reach();
+  let p = match vkfrag_payload_%(tn)s(&x) { Ok(p) => p, Err(_) => { assert!(false, "VK: encoding a constant succeeds"); return; } };
+  let mut w: Vec<u8> = Vec::new();
+  x.write_le(&mut w);
+  assert!(p == w, "VK: the constant payload the compiler emits equals the element encoding of the same value");
+  let y = <%(T)s as ConstElem>::from_le(&p[..]);
+  assert!(%(same)s, "VK: decoding the emitted constant yields the value the compiler wrote");
+}
+""" % dict(h=h, mk=mk, tn=tn, T=T, same=same))
+    header = """// GENERATED by /verif/units/C06.py -- do not edit
+#![allow(unused, non_snake_case)]
+use super::*;
+include!("/verif/contracts/common/vk.rs");
+#[cfg(kani)]
+fn fmt_stub(_args: core::fmt::Arguments<'_>) -> String { String::new() }
+"""
+    text_out = header + "\n// ---- fragments: payload-building statements of `impl CompileConst for T`, verbatim (self -> self_)\n" + "\n".join(frags) + \
+        "\n" + "\n".join(harn) + "\nvk_registry!{ vkreplay_c06p; %s }\n" % ", ".join(names)
+    return text_out, names
 
 
 def split_args(s):
@@ -234,8 +316,10 @@ def plan(plan, tier, seed):
     with open(os.path.join(VERIF, "contracts", "C06", "kani_constants.rs")) as f:
         text = f.read()
     plan.harness_files[os.path.join(GEN, "C06", "kani_constants.rs")] = text
+    ptext, pnames = payload_fragments(plan)
+    plan.harness_files[os.path.join(GEN, "C06", "kani_payload.rs")] = ptext
     hmap = {}
-    for m in re.finditer(r"pub\(crate\) fn (vkc06_\w+)\(\)", text):
+    for m in re.finditer(r"pub\(crate\) fn (vkc06_\w+)\(\)", text + ptext):
         h = m.group(1)
         level, bound = ("bounded", "see harness") if ("string" in h or "symbols" in h or "matrix" in h) else ("proved", "")
         hmap[h] = plan.ob("C06." + h[len("vkc06_"):].replace("__", "."), "kani", level, bound=bound,
@@ -261,7 +345,9 @@ def plan(plan, tier, seed):
             ob.raw = "%s:%d: %s" % (rel, line, detail)
         else:
             ob.status, ob.detail = "undecided", detail
-    plan.kani.append(dict(package="mech-core", filters=["vkc06_"], harness=hmap, timeout=3000, replay_entry="vkreplay_c06"))
+    plan.kani.append(dict(package="mech-core", filters=["vkc06_"], harness=hmap, timeout=3000,
+                          replay_entry=lambda h: "vkreplay_c06p" if "payload__" in h else "vkreplay_c06"))
+    plan.dropped.append("(F) constant payloads: of every `impl CompileConst for T` (scalar kinds, String) the statements before the final `ctx.compile_const(&payload, ValueKind::K)` are copied verbatim (`self` renamed) into `fn vkfrag_payload_T(&T) -> MResult<Vec<u8>>` inside constants.rs' harness module; the call into CompileCtx (HashSet-based) is dropped")
     plan.functions += ["src/core/src/program/compiler/context.rs: CompileCtx::{alloc_register_for_ptr, emit_const_load, emit_nullop, emit_unop, emit_binop, emit_ternop, emit_quadop}",
                        "src/core/src/stdlib.rs: compile_register_brrw!, compile_nullop!, compile_unop!, compile_binop!, compile_ternop!, compile_quadop!",
                        "src/core/src/program/compiler/constants.rs: ConstElem::{write_le,from_le} for every scalar kind",
